@@ -303,7 +303,9 @@ pub fn window_set(w: usize) -> Vec<Vec<f64>> {
         // even-length windows (HTS: positions -n/2 .. n/2-1, so they reach further back than forward); in 6 the widest
         // window is even, in 7 the only dynamic window is the backward difference
         6 => vec![vec![1.0], vec![-1.0, 1.0], vec![0.5, -0.5, -0.5, 0.5]],
-        _ => vec![vec![1.0], vec![-1.0, 1.0]],
+        7 => vec![vec![1.0], vec![-1.0, 1.0]],
+        // four windows, the last one of width 7
+        _ => vec![vec![1.0], vec![-0.5, 0.0, 0.5], vec![1.0, -2.0, 1.0], vec![-0.1, 0.05, 0.2, 0.0, -0.2, -0.05, 0.1]],
     }
 }
 
@@ -572,6 +574,19 @@ impl GenCfg {
                     },
                     0.01,
                 ),
+                gv: None,
+            });
+        }
+        if self.ns >= 4 {
+            // a fourth stream: legal in the container, ignored by the engine (which reads spectrum, F0 and low-pass)
+            streams.push(StreamSpec {
+                name: "AUX".into(),
+                vlen: 2,
+                is_msd: false,
+                use_gv: false,
+                options: vec!["KIND=aux".into()],
+                windows: vec![vec![1.0]],
+                model: mk("aux", 2, 1, false, &|s, l, k| 0.25 * (1 + s + l + k) as f32, 0.5),
                 gv: None,
             });
         }
